@@ -131,6 +131,7 @@ func init() {
 				if b, ok := big[p]; ok {
 					n = b
 				}
+				crumb(fmt.Sprintf("a histogram period of %d observations (sampled=%v, period %d of a run of consecutive periods on recycled rings), then its statistics are extracted", n, sampled, p), nil)
 				obs := make([]uint64, n)
 				set := map[uint64]bool{}
 				for i := range obs {
